@@ -50,7 +50,7 @@ func init() {
 					}
 				}
 			}
-			for _, c := range []string{"car/bitflip-payload-stale-cid", "car/bitflip-payload-recomputed-cid", "car/bitflip-signature-recomputed-cid", "car/non-token", "car/truncated-entry", "car/wrong-cid", "car/length-off-by-one", "car/cut-after-length-prefix", "car/cut-inside-cid", "car/cut-inside-data", "car/cut-inside-header", "cbor/cut", "cbor/bitflip-payload", "cbor/bitflip-signature", "cbor/non-token", "cbor/truncated-entry", "cbor/wrong-version", "cbor/extra-key", "cbor/non-bytes-entry", "cbor/non-map-root"} {
+			for _, c := range []string{"car/bitflip-payload-stale-cid", "car/bitflip-payload-recomputed-cid", "car/bitflip-signature-recomputed-cid", "car/tag-changed-recomputed-cid", "cbor/tag-changed", "car/non-token", "car/truncated-entry", "car/wrong-cid", "car/length-off-by-one", "car/cut-after-length-prefix", "car/cut-inside-cid", "car/cut-inside-data", "car/cut-inside-header", "cbor/cut", "cbor/bitflip-payload", "cbor/bitflip-signature", "cbor/non-token", "cbor/truncated-entry", "cbor/wrong-version", "cbor/extra-key", "cbor/non-bytes-entry", "cbor/non-map-root"} {
 				cells = append(cells, "corrupt/"+c)
 			}
 			return cells
@@ -335,6 +335,16 @@ func runC17(w *mon.W) {
 				// the signature byte string starts at offset ~3
 				pos := 4 + r.IntN(16)
 				b[pos] ^= 1 << r.IntN(8)
+			case "tag-changed":
+				// one byte of the payload tag ("ucan/dlg@1.0.0-rc.1" -> e.g. "...rc.0"): a token of a
+				// type the library does not know, and whose signature no longer verifies
+				if i := bytes.Index(b, []byte("ucan/")); i >= 0 && i+19 <= len(b) {
+					pos := i + 5 + r.IntN(14)
+					if r.IntN(2) == 0 {
+						pos = i + 18
+					}
+					b[pos] ^= 0x01
+				}
 			case "non-token":
 				b = gen.Bytes(r, 40)
 			case "truncated":
@@ -390,6 +400,11 @@ func runC17(w *mon.W) {
 			nd := corrupt("bitflip-signature")
 			return ref.CID(nd), nd
 		}), -1, 0), 1)
+		expectFail("car/tag-changed-recomputed-cid", buildCAR(carBlocks(func(i int, c cid.Cid, d []byte) (cid.Cid, []byte) {
+			nd := corrupt("tag-changed")
+			return ref.CID(nd), nd
+		}), -1, 0), 1)
+		expectFail("cbor/tag-changed", buildCborContainer("ctn-v1", entries(func() ref.V { return ref.Bytes(corrupt("tag-changed")) }), false), 0)
 		expectFail("car/non-token", buildCAR(carBlocks(func(i int, c cid.Cid, d []byte) (cid.Cid, []byte) {
 			nd := corrupt("non-token")
 			return ref.CID(nd), nd
